@@ -13,6 +13,28 @@ from harness.c04lib import FORMATS
 # the property on the real implementation, one (entry point, value)
 # ---------------------------------------------------------------------------
 
+def robust_bad_idx(*a, **kw):
+    """vlib.coq_bad_idx, repeated when Coq was cut short by the machine rather than by an error of the case file: a coqc
+    that is killed (memory pressure / signal on a loaded host) or times out leaves NO diagnostic, a case file that does
+    not check always prints one (`File ..., line ...: Error: ...`).  Up to three attempts; a result with a diagnostic is
+    returned as it is."""
+    import time as _t
+    bad, log = None, ""
+    for attempt in range(3):
+        bad, log = vlib.coq_bad_idx(*a, **kw)
+        if bad is not None:
+            return bad, log
+        txt = (log or "").strip()
+        cut_short = (not txt) or any(w in txt for w in ("Killed", "Terminated", "Error 137", "Error 124", "Error 143",
+                                                         "Cannot allocate memory", "Out of memory", "not run"))
+        if "Error:" in txt and "File " in txt:
+            cut_short = False
+        if not cut_short:
+            break
+        _t.sleep(5 + 10 * attempt)
+    return bad, log
+
+
 def _exc(e: BaseException) -> str:
     out = f"{type(e).__name__}: {str(e)[:200]}"
     seen = 0
@@ -146,10 +168,11 @@ def check_composition(entry: L.Entry, v, opts: int = 0):
             want = L.ser_doc(F, nb)
         got = entry.encode(v)
         if want != got:
-            if F == "orjson" and entry.dialect is not None and opts and L.tree_eq(L.parse_doc(F, got), L.parse_doc(F, want)):
-                # observation (not a C04 violation: the document is the same tree): with a call-time dialect
-                # the generated method calls encoder(...) without the encoder kwargs, so orjson_options is ignored
-                out.append(("observation-orjson_options-ignored-with-call-dialect", "", ""))
+            if F == "orjson" and entry.dialect is not None and opts and got == orjson.dumps(nb):
+                # with a call-time dialect the generated method calls encoder(...) without the encoder kwargs
+                # (builder.py _add_pack_method_with_dialect_lines): Config.orjson_options / orjson_options= is ignored.
+                # The document is exactly the one written without options (model: EncKwargs.kw_used ret_dialect = None).
+                out.append(("encoder-kwargs", repr(got)[:300], repr(want)[:300]))
             else:
                 out.append(("composition", repr(got)[:300], repr(want)[:300]))
     except Exception as e:
@@ -261,6 +284,9 @@ def signature(S: L.Schema, F: str, kind: str, phase: str, observed: str, v, shp=
     if shp is not None and F in ("orjson", "msgpack", "toml") and kind in ("mixin", "mixin-str") \
             and "dbase" in L.kinds_deep(shp, S) and phase != "composition":
         sig["kind"] = "format-base-typed-field-subclass-fields-dropped"
+        return sig
+    if phase == "encoder-kwargs" and F == "orjson" and kind == "mixin" and dialect_given:
+        sig["kind"] = "orjson-options-ignored-with-call-dialect"
         return sig
     if phase.startswith("alike-decode"):
         phase_class = "decode-or-roundtrip"
@@ -566,7 +592,7 @@ def correspondence_cases(ctx: vlib.Ctx, n_schemas: int, n_values: int):
 def correspondence(ctx: vlib.Ctx):
     cases, descr = correspondence_cases(ctx, ctx.budget(40, 300), ctx.budget(3, 4))
     name = "format-model-vs-impl-and-libraries"
-    bad, log = vlib.coq_bad_idx("c04_fmt", "Fmt FmtCases", "", "", cases, "case_ok", "fcase", shard=100,
+    bad, log = robust_bad_idx("c04_fmt", "Fmt FmtCases", "", "", cases, "case_ok", "fcase", shard=100, timeout=1800,
                                 needs=["theories/Fmt.vo", "theories/FmtCases.vo"])
     ctx.count(n=len(cases))
     if bad is None:
@@ -612,8 +638,8 @@ def k11_validation(ctx: vlib.Ctx):
                     descr.append((d, f, ta, codec))
     okf = ("fun c => match c with (d, h, ta, f, cc, e) => match mname d h ta f cc, e with "
            "| Ok (KStr n), Some m => String.eqb n m | Raise _, None => true | _, _ => false end end")
-    bad, log = vlib.coq_bad_idx("c04_k11", "PyK_names K11Proofs", "From VerifGen Require Import K11.", "", cases, okf,
-                                "dir * string * list kv * string * kv * option string", shard=400,
+    bad, log = robust_bad_idx("c04_k11", "PyK_names K11Proofs", "From VerifGen Require Import K11.", "", cases, okf,
+                                "dir * string * list kv * string * kv * option string", shard=400, timeout=1800,
                                 needs=["theories/K11Proofs.vo"])
     ctx.count(n=len(cases))
     if hexbad:
@@ -691,8 +717,8 @@ def k40_validation(ctx: vlib.Ctx):
         L.unload_module("c04_k16_probe")
     okf = ("fun (c: bool * bool * bool * list cinstr) => match c with (dec, b_codec, b_m, got) => "
            "prog_eqb (if dec then decode_prog b_codec b_m else encode_prog b_codec b_m) got end")
-    bad, log = vlib.coq_bad_idx("c04_k40", "CodecWrap", "From VerifGen Require Import K40.", "", cases, okf,
-                                "bool * bool * bool * list cinstr", shard=400, needs=["theories/CodecWrapProofs.vo"])
+    bad, log = robust_bad_idx("c04_k40", "CodecWrap", "From VerifGen Require Import K40.", "", cases, okf,
+                                "bool * bool * bool * list cinstr", shard=400, timeout=1800, needs=["theories/CodecWrapProofs.vo"])
     ctx.count(n=len(cases))
     if bad is None:
         ctx.correspondence(name, len(cases), -1, log)
@@ -701,6 +727,421 @@ def k40_validation(ctx: vlib.Ctx):
         ctx.correspondence(name, len(cases), len(bad), str([descr[i] for i in bad[:6]]))
         if bad:
             ctx.not_shown("translation validation K40", str([descr[i] for i in bad[:6]]))
+
+
+def k104a_validation(ctx: vlib.Ctx):
+    """(T) the reading of the format entry points (kernel K104a, from the AST) against the live objects: what the codec
+    classes really hand to CodecCodeBuilder (default dialect, library function), the builder params of the mixin
+    classes, the one-shot aliases; and the library functions the model names (FmtEntries.lib_parse / lib_ser, proved
+    equal to the rows in C04_entry_points_alike) against the functions fmt_law is validated for
+    (c04lib.parse_doc / ser_doc)."""
+    name = "K104a-entry-table-vs-live-objects"
+    if not ctx.kernel_report.get("K104a", {}).get("ok"):
+        ctx.correspondence(name, 0, -1, "kernel K104a not translated: " + str(ctx.kernel_report.get("K104a", {}).get("error")))
+        return
+    import importlib
+    import importlib.util
+    import inspect
+    import os
+    import re
+    from mashumaro.codecs import _builder
+    from mashumaro.dialect import Dialect
+    spec = importlib.util.spec_from_file_location(
+        "vk_k104a_live", os.path.join(os.path.dirname(vlib.COQ), "tools", "kernels", "k104a_format_entries.py"))
+    k104a = importlib.util.module_from_spec(spec)
+    spec.loader.exec_module(k104a)
+    rows = k104a.rows()
+    import json, orjson, yaml, msgpack, tomli_w, tomllib     # noqa: E401
+    ns = {"json": json, "orjson": orjson, "yaml": yaml, "msgpack": msgpack, "tomli_w": tomli_w, "tomllib": tomllib}
+    n, bad = 0, []
+
+    def case(ok, what):
+        nonlocal n
+        n += 1
+        if not ok:
+            bad.append(what)
+
+    def resolve(q):
+        m = re.fullmatch(r'\(?(?:Some |DMergeInto )"([^"]+)"\)?', q)
+        mod, _, attr = m.group(1).rpartition(".")
+        return getattr(importlib.import_module(mod), attr)
+
+    def fn_of_text(t):
+        return eval("lambda _: " + (t if "(_" in t else t + "(_)"), dict(ns))
+
+    trees = [{"a": 1, "b": [1.5, "x", True], "c": {"d": "\u00e9", "e": []}}, {}, {"k": {"z": -3}}]
+
+    def same_fn(F, direction, live, text, what):
+        g = fn_of_text(text)
+        if "(" not in text:
+            case(live is eval(text, dict(ns)), f"{what}: live function is not {text}")
+        for b in trees + ([{"k": b"\x00\xff", "s": "\u00e9"}] if F == "msgpack" else []):
+            try:
+                if direction == "decode":
+                    d = L.ser_doc(F, b)
+                    case(live(d) == g(d) == L.parse_doc(F, d), f"{what}: {text} / live / c04lib.parse_doc differ on {d!r}")
+                else:
+                    case(live(b) == g(b) == L.ser_doc(F, b), f"{what}: {text} / live / c04lib.ser_doc differ on {b!r}")
+            except Exception as e:
+                case(False, f"{what}: {_exc(e)}")
+
+    from mashumaro.helper import pass_through
+
+    class XD_k104a(Dialect):      # a caller's dialect: one strategy the format dialects do not have, one msgpack has
+        serialization_strategy = {bytes: {"serialize": bytes.hex, "deserialize": bytes.fromhex}, int: pass_through}
+
+    rec = []
+    orig_d, orig_e = _builder.CodecCodeBuilder.add_decode_method, _builder.CodecCodeBuilder.add_encode_method
+
+    def spy_d(self, shape_type, obj, fn=None):
+        rec.append((self.default_dialect, fn))
+        return orig_d(self, shape_type, obj, fn)
+
+    def spy_e(self, shape_type, obj, fn=None):
+        rec.append((self.default_dialect, fn))
+        return orig_e(self, shape_type, obj, fn)
+
+    _builder.CodecCodeBuilder.add_decode_method, _builder.CodecCodeBuilder.add_encode_method = spy_d, spy_e
+    try:
+        for F in FORMATS:
+            r = rows[F]
+            cm = importlib.import_module(L.CODEC_MODS[F][0])
+            case((L.CODEC_MODS[F][2], L.CODEC_MODS[F][1]) == (r["decoder_class"], r["encoder_class"]), f"{F}: codec class names")
+            for direction, cname, rule, text in (("decode", r["decoder_class"], r["dec_rule"], r["dec_fn"]),
+                                                 ("encode", r["encoder_class"], r["enc_rule"], r["enc_fn"])):
+                for X in (None, XD_k104a):
+                    rec.clear()
+                    getattr(cm, cname)(typing_list_int(), **({"default_dialect": X} if X is not None else {}))
+                    dd, fn = rec[-1]
+                    what = f"{F} {cname}(default_dialect={getattr(X, '__name__', None)})"
+                    if rule == "DAsIs":
+                        case(dd is X, f"{what}: builder dialect is {dd!r}, rule DAsIs")
+                    else:
+                        cls = resolve(rule)
+                        if X is None:
+                            case(dd is cls, f"{what}: builder dialect is {dd!r}, not {cls.__name__}")
+                        else:
+                            exp = cls.merge(X)
+                            case(dd is not cls and dd is not X and isinstance(dd, type) and issubclass(dd, Dialect)
+                                 and dd.serialization_strategy == exp.serialization_strategy
+                                 and getattr(dd, "omit_none", None) == getattr(exp, "omit_none", None),
+                                 f"{what}: builder dialect is not {cls.__name__}.merge(X)")
+                    case(fn is not None, f"{what}: no library function handed over")
+                    if fn is not None and X is None:
+                        same_fn(F, direction, fn, text, what)
+            case(cm.decode is getattr(cm, r["oneshot"][0]) and cm.encode is getattr(cm, r["oneshot"][1]), f"{F}: one-shot aliases")
+            mm = importlib.import_module(f"mashumaro.mixins.{F}")
+            mcls = getattr(mm, r["mixin_class"])
+            params = mcls.__dict__.get(f"_{r['mixin_class']}__mashumaro_builder_params")
+            if r["m_kind"] == "MGenerated":
+                case(isinstance(params, dict) and set(params) == {"packer", "unpacker"}, f"{F}: live builder params")
+                if isinstance(params, dict):
+                    pk, up = params["packer"], params["unpacker"]
+                    case(pk.get("format_name") == r["m_pack_name"] and up.get("format_name") == r["m_unpack_name"], f"{F}: format names")
+                    case(pk.get("dialect") is resolve(r["m_pack_dialect"]) and up.get("dialect") is resolve(r["m_unpack_dialect"]),
+                         f"{F}: mixin dialect classes")
+                    case(sorted(pk.get("encoder_kwargs", {})) == sorted(k.split("=")[0] for k in r["m_enc_kwargs"]), f"{F}: encoder kwargs")
+                    same_fn(F, "encode", pk["encoder"], r["m_enc_fn"], f"{F} mixin encoder")
+                    same_fn(F, "decode", up["decoder"], r["m_dec_fn"], f"{F} mixin decoder")
+                case((L.MIXIN_METHODS[F][0], L.MIXIN_METHODS[F][1]) == ("to_" + r["m_pack_name"], "from_" + r["m_unpack_name"]),
+                     f"{F}: generated method names")
+            else:
+                case(params is None, f"{F}: a plain mixin has builder params")
+                enc = inspect.signature(getattr(mcls, "to_" + F)).parameters["encoder"].default
+                dec = inspect.signature(getattr(mcls, "from_" + F)).parameters["decoder"].default
+                same_fn(F, "encode", enc, r["m_enc_fn"], f"{F} mixin encoder default")
+                same_fn(F, "decode", dec, r["m_dec_fn"], f"{F} mixin decoder default")
+    except Exception as e:
+        case(False, f"validation crashed: {_exc(e)} {traceback.format_exc()[-600:]}")
+    finally:
+        _builder.CodecCodeBuilder.add_decode_method, _builder.CodecCodeBuilder.add_encode_method = orig_d, orig_e
+    ctx.count(n=n)
+    ctx.correspondence(name, n, len(bad), "; ".join(bad[:6]))
+    if bad:
+        ctx.not_shown("translation validation K104a", "; ".join(bad[:6]))
+
+
+def typing_list_int():
+    import typing
+    return typing.List[int]
+
+
+KW_SRC = L.HEADER + """
+import orjson
+from mashumaro.config import ADD_DIALECT_SUPPORT
+
+class XDK(Dialect):
+    pass
+
+@dataclass
+class KW(%(mixin)s):
+    b: int
+    a: Dict[%(key)s, int]
+    class Config(BaseConfig):
+        code_generation_options = [ADD_DIALECT_SUPPORT]
+%(opt)s
+"""
+KW_MIXINS = {"json": "DataClassJSONMixin", "orjson": "DataClassORJSONMixin", "yaml": "DataClassYAMLMixin",
+             "msgpack": "DataClassMessagePackMixin", "toml": "DataClassTOMLMixin"}
+
+
+def kwargs_correspondence(ctx: vlib.Ctx):
+    """(M) the encoder keyword that reaches the format library from the generated to_<format> method - observed with a
+    recording encoder on the real classes - against EncKwargs.kw_used over the generator's decisions as read from
+    builder.py on this run (K104b) and the mixins' builder params (K104a), evaluated by vm_compute.
+    Also the direct probe of the visible consequence (known finding C04/orjson-options-ignored-with-call-dialect)."""
+    name = "encoder-kwargs-model-vs-impl"
+    kr = ctx.kernel_report
+    if not (kr.get("K104b", {}).get("ok") and kr.get("K104a", {}).get("ok")):
+        ctx.correspondence(name, 0, -1, "kernel K104a/K104b not translated: " + str(kr.get("K104b", {}).get("error")))
+        return
+    import orjson
+    cases, descr = [], []
+    configs = [None, orjson.OPT_SORT_KEYS, orjson.OPT_INDENT_2 | orjson.OPT_APPEND_NEWLINE]
+    calls = [None, orjson.OPT_SORT_KEYS, orjson.OPT_INDENT_2, 0]
+    for F in FORMATS:
+        for ci, cfg in enumerate(configs if F == "orjson" else [None]):
+            src = KW_SRC % {"mixin": KW_MIXINS[F], "key": "str",
+                            "opt": f"        orjson_options = {cfg}" if cfg is not None else "        pass"}
+            modname = f"c04_kw_{F}_{ci}"
+            try:
+                mod = L.load_module(src, modname)
+                v = mod.KW(1, {"k": 2})
+                cfg_eff = getattr(mod.KW.Config, "orjson_options", 0) if F == "orjson" else 0
+                for rep in (0, 1):                      # second round: the per-dialect packer comes from the cache
+                    for dg in (False, True):
+                        for call in (calls if F == "orjson" else [None]):
+                            rec = []
+
+                            def spy(tree, **kw):
+                                rec.append(kw)
+                                return b""
+                            kw = {"encoder": spy}
+                            if dg:
+                                kw["dialect"] = mod.XDK
+                            if call is not None:
+                                kw["orjson_options"] = call
+                            try:
+                                getattr(v, L.MIXIN_METHODS[F][0])(**kw)
+                                if len(rec) != 1 or set(rec[0]) - {"option"}:
+                                    obs = "(Some (-1)%Z)"       # never equal: the encoder must be called exactly once
+                                else:
+                                    obs = f"(Some ({rec[0]['option']})%Z)" if "option" in rec[0] else "None"
+                            except Exception as e:
+                                obs = "(Some (-2)%Z)"
+                                rec.append(_exc(e))
+                            cs = f"(Some ({call})%Z)" if call is not None else "None"
+                            cases.append(f"({vlib.coq_bool(dg)}, {L.FMT[F]}, ({cfg_eff})%Z, {cs}, {obs})")
+                            descr.append({"format": F, "dialect_given": dg, "config": cfg_eff, "call": call, "round": rep,
+                                          "observed": str(rec)[:200]})
+            except Exception as e:
+                ctx.fail(f"encoder-kwargs probe class cannot be created/used: {_exc(e)}",
+                         {"entry": "schema", "src": src, "observed": traceback.format_exc()[-1500:], "expected": "classes are created"},
+                         {"kind": "schema-compile", "exc": type(e).__name__})
+            finally:
+                L.unload_module(modname)
+    okf = ("fun (c: bool * fmt * Z * option Z * option Z) => match c with (dg, F, config, call, obs) => "
+           "oz_eqb (kw_used (if dg then ret_dialect else ret_plain) (has_encoder F) (has_kwargs F) config call) obs end")
+    bad, log = robust_bad_idx("c04_kw", "Fmt EncKwargs EncKwargsProofs", "From VerifGen Require Import K104a K104b.",
+                                "Open Scope Z_scope.", cases, okf, "bool * fmt * Z * option Z * option Z", shard=400,
+                                timeout=1800, needs=["theories/EncKwargsProofs.vo"])
+    ctx.count(n=len(cases))
+    if bad is None:
+        ctx.correspondence(name, len(cases), -1, log)
+        ctx.not_shown("correspondence " + name, log)
+    else:
+        ctx.correspondence(name, len(cases), len(bad), str([descr[i] for i in bad[:4]]))
+        if bad:
+            ctx.not_shown("correspondence " + name, str([descr[i] for i in bad[:4]]))
+    # direct probe: a value that the configured encoder accepts (OPT_NON_STR_KEYS) must encode with and without `dialect=`
+    src = KW_SRC % {"mixin": KW_MIXINS["orjson"], "key": "int", "opt": "        orjson_options = orjson.OPT_NON_STR_KEYS"}
+    modname = "c04_kw_probe"
+    try:
+        mod = L.load_module(src, modname)
+        v = mod.KW(1, {3: 2})
+        want = v.to_jsonb()
+        ctx.count(("kwargs-probe", "plain"))
+        if mod.KW.from_json(want) != v:
+            ctx.fail("orjson/mixin: OPT_NON_STR_KEYS document does not decode back", {"entry": "encoder-kwargs", "src": src,
+                     "value_src": "KW(1, {3: 2})", "dialect": None, "observed": repr(want), "expected": "round trip"},
+                     {"format": "orjson", "entry": "mixin", "phase": "roundtrip", "kind": "other"})
+        ctx.count(("kwargs-probe", "dialect"))
+        try:
+            got = v.to_jsonb(dialect=mod.XDK)
+            observed = repr(got)
+        except Exception as e:
+            got, observed = None, _exc(e)
+        if got != want:
+            ctx.fail(f"orjson/mixin[XDK]: to_jsonb(dialect=XDK) differs from to_jsonb() under Config.orjson_options: {observed[:120]}",
+                     {"entry": "encoder-kwargs", "src": src, "value_src": "KW(1, {3: 2})", "dialect": "XDK",
+                      "observed": observed, "expected": repr(want)},
+                     {"format": "orjson", "entry": "mixin", "phase": "encoder-kwargs", "kind": "orjson-options-ignored-with-call-dialect",
+                      "dialect": "XDK"})
+    except Exception as e:
+        ctx.fail(f"encoder-kwargs probe class cannot be created/used: {_exc(e)}",
+                 {"entry": "schema", "src": src, "observed": traceback.format_exc()[-1500:], "expected": "classes are created"},
+                 {"kind": "schema-compile", "exc": type(e).__name__})
+    finally:
+        L.unload_module(modname)
+
+
+MP_SRC = L.HEADER + """
+class XDP(Dialect):
+    pass
+
+@dataclass
+class Inner(%(mixin)s):
+    z: Optional[datetime.date] = None
+
+@dataclass
+class MP(%(mixin)s):
+    x: int
+    y: Optional[bytes] = None
+    zs: List[Inner] = field(default_factory=list)
+%(cfg)s
+"""
+
+
+def classify_mixin_method(text: str, method: str, direction: str) -> dict:
+    """the emitted module text of one generated method -> CodecWrap instructions per branch
+    ({False: no call-time dialect, True: `dialect=` given}); unknown shapes become a never-equal program"""
+    UNK = ["IDef"] * 6
+    lines = text.splitlines()
+    try:
+        di = next(i for i, ln in enumerate(lines) if ln.startswith(f"def {method}("))
+    except StopIteration:
+        return {False: UNK, True: UNK}
+    body = []
+    for ln in lines[di + 1:]:
+        if ln and not ln.startswith(" "):
+            break
+        body.append(ln)
+    install = any(ln.strip() == f"setattr(cls, '{method}', {method})" or ln.strip() == f"setattr(_cls, '{method}', {method})"
+                  for ln in lines)
+    if "    if dialect is None:" in body and "    else:" in body:
+        i0, i1 = body.index("    if dialect is None:"), body.index("    else:")
+        branches = {False: body[i0 + 1:i1], True: body[i1 + 1:]}
+        if any(ln.strip() for ln in body[:i0]):
+            return {False: UNK, True: UNK}
+    else:
+        branches = {False: body, True: None}
+    out = {}
+    for dg, br in branches.items():
+        if br is None:
+            out[dg] = None
+            continue
+        st = [ln.strip() for ln in br if ln.strip()]
+        rets = [ln for ln in st if ln.startswith("return ") or ln == "return"]
+        prog = ["IDef"]
+        if direction == "from":
+            ndec = sum("decoder(" in ln for ln in st)
+            if st and st[0] == "d = decoder(d)" and ndec == 1:
+                prog.append("IPre")
+            elif ndec != 0:
+                prog += UNK
+            prog.append("IReturnExpr" if rets and not any("decoder(" in r for r in rets) else "IDef")
+        else:
+            if rets and all(r.startswith("return encoder(") for r in rets) and sum("encoder(" in ln for ln in st) == len(rets):
+                prog.append("IReturnPost")
+            elif rets and not any("encoder(" in ln for ln in st):
+                prog.append("IReturnExpr")
+            else:
+                prog += UNK
+        prog.append("IInstallDef" if install else "IDef")
+        out[dg] = prog
+    return out
+
+
+def mixin_program_correspondence(ctx: vlib.Ctx):
+    """(M) the programs of the generated from_<format> / to_<format> methods (MixinWrap.mixin_from_prog / mixin_to_prog over
+    K104a-c) against the module text the real code generator emits for real classes, per branch (with / without
+    `dialect=`); plus: a recording decoder is called exactly once, with the document, on both branches."""
+    name = "mixin-method-programs-vs-emitted-code"
+    kr = ctx.kernel_report
+    if not all(kr.get(k, {}).get("ok") for k in ("K104a", "K104b", "K104c")):
+        ctx.correspondence(name, 0, -1, "kernels K104a/b/c not translated: " + str([kr.get(k, {}).get("error") for k in ("K104a", "K104b", "K104c")]))
+        return
+    from mashumaro.core.meta.code import builder as B
+    rec = []
+    orig = B.CodeBuilder.compile
+
+    def spy(self):
+        rec.append(self.lines.as_text())
+        return orig(self)
+    cases, descr, extra_bad = [], [], []
+    B.CodeBuilder.compile = spy
+    try:
+        for F in ("orjson", "msgpack", "toml"):
+            for dsupport in (False, True):
+                cfg = "    class Config(BaseConfig):\n        code_generation_options = [ADD_DIALECT_SUPPORT]\n" if dsupport else ""
+                src = MP_SRC % {"mixin": KW_MIXINS[F], "cfg": cfg}
+                modname = f"c04_mp_{F}_{int(dsupport)}"
+                rec.clear()
+                try:
+                    mod = L.load_module(src, modname)
+                    v = mod.MP(1, None, [mod.Inner(None)]) if F == "toml" else mod.MP(1, b"ab", [mod.Inner(None)])
+                    to_m, from_m = L.MIXIN_METHODS[F]
+                    doc = getattr(v, to_m)()
+                    getattr(mod.MP, from_m)(doc)
+                    if dsupport:
+                        getattr(mod.MP, from_m)(getattr(v, to_m)(dialect=mod.XDP), dialect=mod.XDP)
+                    for direction, pub in (("from", from_m), ("to", to_m)):
+                        method = f"__mashumaro_{pub}__"
+                        texts = [t for t in rec if f"def {method}(" in t and "MP" in t or (f"def {method}(" in t)]
+                        texts = [t for t in rec if f"def {method}(" in t]
+                        if not texts:
+                            cases.append(f"({vlib.coq_bool(direction == 'from')}, {L.FMT[F]}, false, [IInstallDirect])")
+                            descr.append({"format": F, "method": method, "why": "no emitted text captured"})
+                            continue
+                        for t in texts:
+                            if "dialect=dialect," in t.split(f"def {method}(")[0] or f"[dialect] = {method}" in t:
+                                continue        # a per-dialect method (built without encoder / decoder): not the public method
+                            for dg, prog in classify_mixin_method(t, method, direction).items():
+                                if prog is None:
+                                    continue
+                                cases.append(f"({vlib.coq_bool(direction == 'from')}, {L.FMT[F]}, {vlib.coq_bool(dg)}, [{'; '.join(prog)}])")
+                                descr.append({"format": F, "method": method, "dialect_branch": dg, "dialect_support": dsupport,
+                                              "observed": prog, "text": t[:1500]})
+                    # the decoder runs exactly once, on the document
+                    for dg in ((False, True) if dsupport else (False,)):
+                        seen = []
+
+                        def dspy(d, _F=F):
+                            seen.append(d)
+                            return L.parse_doc(_F, d)
+                        kw = {"decoder": dspy}
+                        if dg:
+                            kw["dialect"] = mod.XDP
+                        back = getattr(mod.MP, from_m)(doc, **kw)
+                        if seen != [doc] or back != v:
+                            extra_bad.append({"format": F, "dialect_given": dg, "decoder_calls": len(seen), "same": back == v})
+                        cases.append(f"(true, {L.FMT[F]}, {vlib.coq_bool(dg)}, "
+                                     f"[IDef; {'IPre' if seen == [doc] else 'IDef'}; IReturnExpr; IInstallDef])")
+                        descr.append({"format": F, "dialect_given": dg, "decoder_calls": len(seen)})
+                except Exception as e:
+                    ctx.fail(f"mixin program probe class cannot be created/used: {_exc(e)}",
+                             {"entry": "schema", "src": src, "observed": traceback.format_exc()[-1500:], "expected": "classes are created"},
+                             {"kind": "schema-compile", "exc": type(e).__name__})
+                finally:
+                    L.unload_module(modname)
+    finally:
+        B.CodeBuilder.compile = orig
+    okf = ("fun (c: bool * fmt * bool * list cinstr) => match c with (is_from, F, dg, got) => "
+           "match assoc_fmt F source_mixins with "
+           "| Some m => prog_eqb (if is_from then mixin_from_prog m dg else mixin_to_prog m dg) got "
+           "| None => false end end")
+    bad, log = robust_bad_idx("c04_mp", "Fmt FmtDialectSource FmtEntries CodecWrap EncKwargs MixinWrap",
+                                "From VerifGen Require Import K104a K104b K104c.", "", cases, okf,
+                                "bool * fmt * bool * list cinstr", shard=400, timeout=1800, needs=["theories/MixinWrap.vo"])
+    ctx.count(n=len(cases))
+    if bad is None:
+        ctx.correspondence(name, len(cases), -1, log)
+        ctx.not_shown("correspondence " + name, log)
+    else:
+        detail = str([descr[i] for i in bad[:3]])[:2500]
+        ctx.correspondence(name, len(cases), len(bad), detail)
+        if bad:
+            ctx.not_shown("correspondence " + name, detail)
 
 
 def names_oracle(ctx: vlib.Ctx):
@@ -742,6 +1183,26 @@ class P(%s):
                 L.unload_module(modname)
 
 
+C04_TARGETS = ["props/C04_formats.vo", "props/C04_names.vo", "props/C04_dialects.vo", "props/C04_codec.vo",
+               "props/C04_entries.vo", "props/C04_kwargs.vo", "props/C04_mixins.vo", "theories/FmtCases.vo", "theories/K11Proofs.vo", "theories/CodecWrapProofs.vo"]
+
+
+def prebuild(ctx: vlib.Ctx):
+    """Build the whole cone of the C04 files first, with a generous time budget and a retry when the build was cut
+    short by the machine (timeout / kill under load) rather than by a proof that does not check: the obligations
+    registered afterwards (ctx.theorems re-checks each props file) must not depend on how loaded the machine is.
+    A genuine proof failure is NOT masked: it fails again when the props file is rebuilt by ctx.theorems."""
+    for attempt, jobs in enumerate((6, 2, 1)):
+        br = vlib.coq_make(C04_TARGETS, timeout=2400, jobs=jobs)
+        if br.ok:
+            break
+        cut_short = any(w in (br.log or "") for w in ("Killed", "Terminated", "Error 137", "Error 124", "Error 143",
+                                                       "Cannot allocate memory", "Out of memory"))
+        if br.failed_file is not None and not cut_short:
+            break           # a file does not check: let the obligations report it
+    ctx.coverage["prebuild"] = {"ok": br.ok, "attempts": attempt + 1, "secs": round(br.secs, 1)}
+
+
 def run(ctx: vlib.Ctx):
     ctx.coverage["rule"] = (
         "oracle: generated modules (enums, NamedTuple, TypedDict, nested/inherited dataclasses with 4 format mixins) x "
@@ -768,13 +1229,21 @@ def run(ctx: vlib.Ctx):
         "discriminated unions (Annotated Discriminator, str tags), Literal tags, Any positions, lists, str-keyed mappings, "
         "Optional, text-rendered leaves, the format dialects merged with a caller's dialect (both directions). Plain unions, "
         "non-str mapping keys, class-level discriminators / base-typed polymorphic fields, "
-        "namedtuple_as_dict, orjson_options are covered by the oracle only",
+        "namedtuple_as_dict, the effect of individual orjson option bits on the document are covered by the oracle only "
+        "(which keyword value reaches the encoder is in the model: EncKwargs.v over K104b)",
         "the format libraries and the stdlib leaf codecs are oracles with assumed laws (hypotheses of the theorems)",
         "tools/kernels/k41_format_dialects.py (AST reader of the three dialect classes), tools/kernels/k40_codec_wrapper.py "
         "(symbolic walk of the codec wrapper generator) and coq/theories/CodecWrap.v (meaning of the emitted skeleton)",
+        "tools/kernels/k104a_format_entries.py (AST reader of codecs/*.py and mixins/*.py: dialect rule, library function, "
+        "builder params, plain method bodies), k104b_encoder_kwargs.py (return-statement decisions of the pack-method generator), "
+        "k104c_mixin_decoder.py (structural recogniser: where the unpack-method generator emits `d = decoder(d)`; the program it "
+        "emits is a fixed template once the structure is recognised) - fail-closed readers, validated against the live objects / "
+        "the emitted method text on every run; coq/theories/FmtEntries.v (rule_lsem: meaning of a dialect rule), MixinWrap.v "
+        "(programs of the mixin methods), EncKwargs.v (which keyword value reaches the encoder)",
         "tools/kernels/k11_method_names.py: translator extension (f-strings over str, +=, str-subclass construction) "
         "and coq/theories/PyK_names.v",
     ]
+    prebuild(ctx)
     ctx.theorems("props/C04_formats.vo", ["C04_roundtrip_partial", "C04_roundtrip_refuted", "C04_format_dialects_coherent",
                                           "C04_doc_is_basic", "C04_doc_exact"])
     ctx.theorems("props/C04_names.vo", ["C04_method_names_injective", "C04_method_names_total",
@@ -783,22 +1252,34 @@ def run(ctx: vlib.Ctx):
                                            "C04_format_dialect_tables_match_source"], kernels=["K2", "K13", "K41"])
     ctx.theorems("props/C04_codec.vo", ["C04_codec_decode_is_unpack_after_predecoder",
                                         "C04_codec_encode_is_postencoder_after_pack"], kernels=["K40"])
+    ctx.theorems("props/C04_entries.vo", ["C04_entry_points_alike", "C04_decoder_object_is_model_decode",
+                                          "C04_encoder_object_is_model_encode", "C04_codec_objects_roundtrip"],
+                 kernels=["K104a", "K40"])
+    ctx.theorems("props/C04_kwargs.vo", ["C04_encoder_kwargs_reach_encoder", "C04_encoder_kwargs_with_dialect_refuted",
+                                         "C04_encoder_kwargs_with_dialect_partial", "C04_method_document_keyword"],
+                 kernels=["K104a", "K104b"])
+    ctx.theorems("props/C04_mixins.vo", ["C04_mixin_from_is_model_decode", "C04_mixin_to_is_model_encode",
+                                         "C04_mixin_methods_and_codec_objects_alike"],
+                 kernels=["K104a", "K104b", "K104c", "K40"])
     ctx.checker_cmd = (f"make -C {vlib.COQ} props/C04_formats.vo props/C04_names.vo props/C04_dialects.vo props/C04_codec.vo "
-                       "(coqc 8.16.1, full .vo build); thorough: coqchk -o on the four files")
+                       "props/C04_entries.vo props/C04_kwargs.vo props/C04_mixins.vo (coqc 8.16.1, full .vo build); thorough: coqchk -o on the seven files")
     if not ctx.quick():     # second opinion on the compiled proofs
         rc, log, _ = vlib.run(["timeout", "900", "coqchk", "-o", "-silent", "-Q", "theories", "Verif", "-Q", "gen", "VerifGen",
                                "-Q", "props", "VerifProps", "VerifProps.C04_formats", "VerifProps.C04_names",
-                               "VerifProps.C04_dialects", "VerifProps.C04_codec"], cwd=vlib.COQ, timeout=930)
+                               "VerifProps.C04_dialects", "VerifProps.C04_codec", "VerifProps.C04_entries", "VerifProps.C04_kwargs", "VerifProps.C04_mixins"], cwd=vlib.COQ, timeout=930)
         import re as _re
         m = _re.search(r"\* Axioms:\s*(.*?)\n\s*\n", log, _re.S)
         axioms = " ".join(m.group(1).split()) if m else "(summary not found)"
         ok = rc == 0 and axioms == "<none>"
-        ctx.obligation("coqchk -o VerifProps.C04_formats C04_names C04_dialects C04_codec", ok, f"Axioms: {axioms} | " + log[-300:])
+        ctx.obligation("coqchk -o VerifProps.C04_formats C04_names C04_dialects C04_codec C04_entries C04_kwargs C04_mixins", ok, f"Axioms: {axioms} | " + log[-300:])
         ctx.trusted.append(f"coqchk -o on the C04 props files: Axioms: {axioms}")
         if not ok:
             ctx.not_shown("coqchk on the C04 props", log[-1000:])
     k11_validation(ctx)
     k40_validation(ctx)
+    k104a_validation(ctx)
+    kwargs_correspondence(ctx)
+    mixin_program_correspondence(ctx)
     correspondence(ctx)
     broken = bool(ctx.unshown)
     names_oracle(ctx)
@@ -846,6 +1327,22 @@ def replay(rep: dict) -> int:
         for phase, observed, expected in fails:
             print(f"  {phase}: observed {observed[:300]} | expected {expected[:300]}")
         if any(ph == rep["phase"] for ph, _, _ in fails) or (fails and rep["phase"] == "orjson_options-override"):
+            print("REPRODUCED")
+            return 1
+        print("not reproduced")
+        return 0
+    if rep.get("entry") == "encoder-kwargs":
+        mod = L.load_module(rep["src"], "c04_replay")
+        ns = mod.__dict__
+        v = eval(rep["value_src"], ns)
+        want = v.to_jsonb()
+        try:
+            got = v.to_jsonb(dialect=ns[rep["dialect"]]) if rep.get("dialect") else want
+            print("to_jsonb():", want, "| to_jsonb(dialect=..):", got)
+        except Exception as e:
+            got = None
+            print("to_jsonb():", want, "| to_jsonb(dialect=..) raises", _exc(e))
+        if got != want or ns[rep["root"] if "root" in rep else "KW"].from_json(want) != v:
             print("REPRODUCED")
             return 1
         print("not reproduced")
